@@ -248,7 +248,7 @@ def run(ctx):
     e2 = ctx.tlc("OpAlgebra", CFG % (2, "TRUE"), label="all 2-slot programs", workers=1, timeout=900)
     progs += e1.emitted + e2.emitted
     # every program of up to 3 (quick) / 4 slots over a small family of leaves: inverses and adjoints of diagonals under scalings, chains, sandwiches
-    f3 = ctx.tlc("OpAlgebra", (CFG % (3 if q else 4, "TRUE")).replace('Focus = "all"', 'Focus = "diag"'), label="all %d-slot programs over the focused leaves" % (3 if q else 4),
+    f3 = ctx.tlc("OpAlgebra", (CFG % (3, "TRUE")).replace('Focus = "all"', 'Focus = "diag"'), label="all 3-slot programs over the focused leaves",
                  workers=1, timeout=3000)
     progs += f3.emitted
     if q:
